@@ -266,15 +266,19 @@ func genInvalidText(t *rapid.T, k Kind, base int) string {
 	case KBool:
 		return "maybe"
 	case KFloat32:
-		return rapid.SampledFrom([]string{"abc", "", "1e39", "1,5", "1.5.2", " 1"}).Draw(t, "badfloat")
+		return rapid.SampledFrom([]string{"abc", "", "1e39", "1,5", "1.5.2", " 1", "-", "+", "--"}).Draw(t, "badfloat")
 	case KFloat64:
-		return rapid.SampledFrom([]string{"abc", "", "1e400", "1,5", "--1", "1 "}).Draw(t, "badfloat")
+		return rapid.SampledFrom([]string{"abc", "", "1e400", "1,5", "--1", "1 ", "-", "+", "-."}).Draw(t, "badfloat")
 	case KDuration:
-		return rapid.SampledFrom([]string{"5", "abc", "", "1x", "9223372036854775808ns"}).Draw(t, "baddur")
+		return rapid.SampledFrom([]string{"5", "abc", "", "1x", "9223372036854775808ns", "-", "--"}).Draw(t, "baddur")
 	}
 	if _, ok := intBits[k]; ok {
 		min, max := IntLimits(k)
-		switch rapid.IntRange(0, 5).Draw(t, "badint") {
+		switch rapid.IntRange(0, 7).Draw(t, "badint") {
+		case 6:
+			return "-"
+		case 7:
+			return rapid.SampledFrom([]string{"+", "--", "-x"}).Draw(t, "badsign")
 		case 0:
 			return fmtBig(new(big.Int).Add(max, big.NewInt(1)), base)
 		case 1:
